@@ -30,7 +30,8 @@ TINY = 1e-280
 
 RULE = ("(A) layers (DetGrammarPredictorLayer on CFG.depth_constraint, UGrammarPredictorLayer on UCFG.depth_constraint) over "
         "1-3 grammars of one random abstract DSL (families F1-F6 of lib/dsls.py: 1-3 base types, arities 0-3, higher-order "
-        "arguments, function-typed variables, list types, forbidden patterns) with distinct type requests sharing "
+        "arguments, function-typed variables, list types, forbidden patterns; one configuration in five has NO arity-0 primitive, so "
+        "that the deepest non-terminals derive variables only) with distinct type requests sharing "
         "abstractions, max_depth 2-3 (4 in the thorough tier), min_variable_depth 0-2, n_gram 1-3, random constant types; "
         "abstraction in {primitive_presence, cfg_bigram_without_depth, ttcfg_bigram, ucfg_bigram, identity}.  "
         "(B) UGrammarPredictorLayer on unambiguous grammars with SEVERAL ALTERNATIVES per (non-terminal, primitive) and "
@@ -345,12 +346,23 @@ def gen_request(rng, dsl):
     return S.ARROW(*args, rng.choice(inhabited))
 
 
-def gen_config(rng, tier):
+def gen_config(rng, tier, no_constants=False):
     dsl = D.gen_dsl(rng)
     ng = rng.choice([1, 2, 2, 2, 3])
     forb = dsl["forbidden"] if ng >= 2 else []
     nreq = rng.choice([1, 2, 2, 3])
     reqs = [dsl["request"]]
+    if no_constants:
+        # a DSL without arity-0 primitives: the deepest non-terminals derive variables only while they
+        # share their abstraction with non-terminals that derive primitives
+        dsl = D.gen_dsl(rng, rng.choice(["F1", "F2", "F2"]))
+        funs = [p for p in dsl["prims"] if p[1][0] == 1]
+        bases = base_types(dict(dsl, prims=funs))
+        if funs and bases:
+            dsl = dict(dsl, prims=funs, forbidden=[])
+            forb = []
+            reqs = [S.ARROW(*(bases + [rng.choice(bases)]), rng.choice(bases))]
+            nreq = 1
     for _ in range(12):
         if len(reqs) >= nreq:
             break
@@ -364,6 +376,8 @@ def gen_config(rng, tier):
         md = rng.choice(depths)
         mv = rng.choice([0, 1, 1, 1, 2])
         ct = [b for b in base_types(dsl) if rng.random() < 0.3]
+        if no_constants:
+            mv, ct, md = rng.choice([0, 1]), [], max(md, 3)
         gparams.append([dsl["prims"], forb, r, md, mv, ng, ct])
         d2 = dict(dsl)
         d2["request"] = r
@@ -820,7 +834,7 @@ def gen(rng, tier):
     cases = []
     tries = 0
     while len(cases) < nconf * len(kinds) and tries < nconf * 6:
-        batch = [gen_config(rng, tier) for _ in range(nconf)]
+        batch = [gen_config(rng, tier, no_constants=(i % 5 == 4)) for i in range(nconf)]
         tries += nconf
         raws = core.run_model(ID, [(1, c["data"]) for c in batch])
         for c, raw in zip(batch, raws):
